@@ -316,6 +316,9 @@ var genScenarios = map[string]func(g *Gen) []scriptStep{
 				}
 				return Action{Op: &Op{Kind: "Ack", Name: sS0, AckIDs: ids}}
 			},
+			// one more message, never pulled: the OLDEST unacknowledged one is leased (its next attempt
+			// lies in the future), a newer one is not -- the snapshot's watermark is still the oldest
+			pubStep(sT0, ""),
 			opStep(&Op{Kind: "CreateSnap", Name: "projects/p/snapshots/n0", Name2: sS0}),
 			pubStep(sT0, ""), pullStep(sS0, 10), ackLeased(sS0, "Ack", 0, false),
 			opStep(&Op{Kind: "SeekSnap", Name: seekWho, Name2: "projects/p/snapshots/n0"}),
@@ -430,6 +433,11 @@ var genScenarios = map[string]func(g *Gen) []scriptStep{
 			opStep(&Op{Kind: "UpdateSub", Sub: &SubReq{Name: "projects/p/subscriptions/f2", Topic: sT0, Filter: "attributes:x\x00"}, Paths: []string{"filter"}}),
 			opStep(&Op{Kind: "UpdateSub", Sub: &SubReq{Name: "projects/p/subscriptions/f3", Topic: sT0, Filter: `attributes:x /* c`}, Paths: []string{"filter"}}),
 			subStep(&SubReq{Name: "projects/p/subscriptions/f8", Topic: sT0, Filter: `attributes.x = "abc`}),
+			// ... and literals the lexer lets through but that denote no character (refused when unquoting)
+			opStep(&Op{Kind: "UpdateSub", Sub: &SubReq{Name: "projects/p/subscriptions/f0", Topic: sT0, Filter: `attributes.x = "\400"`}, Paths: []string{"filter"}}),
+			opStep(&Op{Kind: "UpdateSub", Sub: &SubReq{Name: "projects/p/subscriptions/f1", Topic: sT0, Filter: `attributes.x = "\ud800"`}, Paths: []string{"filter"}}),
+			subStep(&SubReq{Name: "projects/p/subscriptions/f7", Topic: sT0, Filter: `hasPrefix(attributes.x, "\U00110000")`}),
+			subStep(&SubReq{Name: "projects/p/subscriptions/f6", Topic: sT0, Filter: `attributes:"\400"`}),
 			opStep(&Op{Kind: "GetSub", Name: "projects/p/subscriptions/f2"}), opStep(&Op{Kind: "GetSub", Name: "projects/p/subscriptions/f0"}),
 			opStep(&Op{Kind: "GetSub", Name: "projects/p/subscriptions/f1"}), pullStep("projects/p/subscriptions/f0", 20), pullStep("projects/p/subscriptions/f2", 20))
 		return s
@@ -516,6 +524,58 @@ var genScenarios = map[string]func(g *Gen) []scriptStep{
 				return Action{Op: &Op{Kind: "Ack", Name: sS0, AckIDs: append([]string(nil), acked...)}}
 			},
 			pullStep(sS0, 10), pullStep(sS1, 10),
+		}
+	},
+	// dead-lettering x message pruning: the forwarded delivery is published at dead-letter time, the
+	// message long before; the message pruner must count it (a message with ANY delivery stays) (C15)
+	"dl-then-prune-messages": func(g *Gen) []scriptStep {
+		job := func(name string, age time.Duration) scriptStep {
+			return opStep(&Op{Kind: "Job", Job: name, MaxN: 100, MinAge: age})
+		}
+		return []scriptStep{
+			opStep(&Op{Kind: "CreateTopic", Name: sT0}), opStep(&Op{Kind: "CreateTopic", Name: sT1}),
+			subStep(&SubReq{Name: sS0, Topic: sT0, DL: dl(sT1, 1), Retry: retry(time.Second)}),
+			subStep(&SubReq{Name: sS1, Topic: sT1}),
+			pubStep(sT0, "", ""), pullStep(sS0, 10), advStep(20 * time.Second),
+			pullStep(sS0, 10), // dead-letters: the copies on s1 are published NOW, the messages 20 s ago
+			advStep(3 * time.Second),
+			job("PruneCompletedDeliveries", time.Second), // the retired source deliveries go
+			job("PruneCompletedMessages", 10*time.Second), // older than 10 s: the messages are, their live copies are not
+			pullStep(sS1, 10), ackLeased(sS1, "Ack", 0, true),
+			advStep(15 * time.Second), job("PruneCompletedDeliveries", time.Second), job("PruneCompletedMessages", 10*time.Second),
+			pullStep(sS1, 10),
+		}
+	},
+	// the expired-deliveries pruner takes no age margin: a delivery that expires SOON is not expired
+	// (and removing it would also release its same-key successor) (C01, C05, C15)
+	"prune-expired-minage": func(g *Gen) []scriptStep {
+		return []scriptStep{
+			opStep(&Op{Kind: "CreateTopic", Name: sT0}),
+			subStep(&SubReq{Name: sS0, Topic: sT0, Ordered: true, MsgTTL: dptr(90 * time.Second)}),
+			pubStep(sT0, "k1"), advStep(70 * time.Second), pubStep(sT0, "k1", "k2"),
+			opStep(&Op{Kind: "Job", Job: "PruneExpiredDeliveries", MaxN: 100, MinAge: 40 * time.Second}),
+			pullStep(sS0, 10),
+			advStep(25 * time.Second), // now the first one HAS expired
+			opStep(&Op{Kind: "Job", Job: "PruneExpiredDeliveries", MaxN: 100, MinAge: 40 * time.Second}),
+			pullStep(sS0, 10),
+		}
+	},
+	// expiration TTL and message retention DIFFER: what a seek gives back to a revived delivery is
+	// the message retention (C17: what is configured is what is enforced; C13, C14)
+	"seek-retention": func(g *Gen) []scriptStep {
+		return []scriptStep{
+			opStep(&Op{Kind: "CreateTopic", Name: sT0}),
+			subStep(&SubReq{Name: sS0, Topic: sT0, HasExp: true, TTL: dptr(3 * time.Hour), MsgTTL: dptr(10 * time.Minute)}),
+			subStep(&SubReq{Name: sS1, Topic: sT0}), // the defaults: 30 d and 7 d
+			pubStep(sT0, "", ""), pullStep(sS0, 10), ackLeased(sS0, "Ack", 0, false), pullStep(sS1, 10), ackLeased(sS1, "Ack", 0, false),
+			advStep(30 * time.Second),
+			func(g *Gen, d *Dump, vnow int64) Action {
+				return Action{Op: &Op{Kind: "SeekTime", Name: sS0, Target: vnow - int64(time.Hour)}}
+			},
+			func(g *Gen, d *Dump, vnow int64) Action {
+				return Action{Op: &Op{Kind: "SeekTime", Name: sS1, Target: vnow - int64(time.Hour)}}
+			},
+			opStep(&Op{Kind: "GetSub", Name: sS0}), pullStep(sS0, 10), pullStep(sS1, 10),
 		}
 	},
 	"ordered-replay": func(g *Gen) []scriptStep {
@@ -663,7 +723,7 @@ var genScenarios = map[string]func(g *Gen) []scriptStep{
 	},
 }
 
-var scenarioNames = []string{"ordered-replay", "ordered-prune", "nack-mixed-attempts", "nack-after-ack-dl", "dl-shared-target", "filter-literals", "ttl-raised", "prune-topics-batch-one", "dl-deleted-topic", "dl-ordered-target", "dl-filtered-target", "snapshot-bystander", "seek-revive-late", "idle-expired-live", "filter-replaced", "ordered-chain", "lease-changes"}
+var scenarioNames = []string{"ordered-replay", "ordered-prune", "dl-then-prune-messages", "prune-expired-minage", "nack-mixed-attempts", "nack-after-ack-dl", "dl-shared-target", "filter-literals", "ttl-raised", "prune-topics-batch-one", "dl-deleted-topic", "dl-ordered-target", "dl-filtered-target", "snapshot-bystander", "seek-revive-late", "idle-expired-live", "filter-replaced", "ordered-chain", "lease-changes"}
 
 // scenariosFor lists the templates a generator profile may start with
 func scenariosFor(profile string) []string {
@@ -671,14 +731,14 @@ func scenariosFor(profile string) []string {
 	case "delivery", "general", "prune":
 		return scenarioNames
 	case "seek":
-		return []string{"seek-revive-late", "ordered-chain", "snapshot-bystander", "ordered-replay"}
+		return []string{"seek-revive-late", "ordered-chain", "snapshot-bystander", "ordered-replay", "seek-retention"}
 	case "names":
 		return []string{"idle-expired-live", "topic-recreated"}
 	case "config":
-		return []string{"filter-replaced", "idle-expired-live", "config-reset-each-field", "filter-literals", "ttl-raised"}
+		return []string{"filter-replaced", "idle-expired-live", "config-reset-each-field", "filter-literals", "ttl-raised", "seek-retention"}
 	case "c15":
 		// no reviving seeks in the paired histories
-		return []string{"ordered-prune", "prune-topics-batch-one", "dl-shared-target", "dl-deleted-topic", "dl-ordered-target", "dl-filtered-target", "idle-expired-live", "filter-replaced"}
+		return []string{"ordered-prune", "dl-then-prune-messages", "prune-expired-minage", "prune-topics-batch-one", "dl-shared-target", "dl-deleted-topic", "dl-ordered-target", "dl-filtered-target", "idle-expired-live", "filter-replaced"}
 	}
 	return nil
 }
